@@ -134,6 +134,31 @@ pub fn der_seq(r: &mut Rng, max: usize) -> Vec<u8> {
     v
 }
 
+/// ECDSA-Sig-Value / Dss-Sig-Value: DER SEQUENCE { INTEGER r, INTEGER s }, every length exactly consistent
+pub fn ecdsa_sig_value(r: &mut Rng) -> Vec<u8> {
+    let int = |r: &mut Rng| -> Vec<u8> {
+        let n = *r.pick(&[1usize, 20, 28, 32, 33, 48, 49, 66]);
+        let mut v = r.bytes(n);
+        v[0] &= 0x7f;
+        if n > 1 && v[0] == 0 {
+            v[1] |= 0x80;
+        }
+        let mut o = vec![0x02, n as u8];
+        o.append(&mut v);
+        o
+    };
+    let mut body = int(r);
+    body.extend(int(r));
+    let mut o = vec![0x30];
+    if body.len() < 128 {
+        o.push(body.len() as u8);
+    } else {
+        o.extend_from_slice(&[0x81, body.len() as u8]);
+    }
+    o.append(&mut body);
+    o
+}
+
 /// `inner` behind a length prefix of 1, 2 or 3 bytes that covers it exactly
 pub fn prefixed(width: usize, inner: &[u8]) -> Vec<u8> {
     let n = inner.len();
@@ -831,8 +856,8 @@ pub fn ecdh(r: &mut Rng) -> AEcdh {
 }
 pub fn sig(r: &mut Rng, sz: Sz, new_form: bool) -> ASig {
     ASig {
-        alg: if new_form { Some((r.u8b(), r.u8b())) } else { None },
-        data: opaque(r, sz.opaque.min(65535)),
+        alg: if new_form { Some(if r.chance(1, 4) { (r.usize(2, 6) as u8, r.usize(1, 3) as u8) } else { (r.u8b(), r.u8b()) }) } else { None },
+        data: if r.chance(1, 4) { ecdsa_sig_value(r) } else { opaque(r, sz.opaque.min(65535)) },
     }
 }
 pub fn sct(r: &mut Rng, sz: Sz) -> ASct {
